@@ -418,7 +418,17 @@ def render(prog, shapes_rec, excl, layer_info):
                 else:
                     out.append('lin %d %d %d' % (ins[1], m.out_features, bias))
         elif op == 'reuse':
-            return None          # layer reuse is not in the Lean bookkeeping model
+            tgt = prog[ins[2]]
+            if tgt[0] == 'conv':
+                # the conv layer of node ins[2] (applied there to tgt[1]) applied again, to ins[1]
+                k, bias = layer_info[ins[2]]
+                if ins[2] in excl:
+                    return None      # an excluded layer invoked twice is not in the model
+                out.append('reuse %d %d %d %d %d %d %d' % (ins[1], ins[2], tgt[1], tgt[-1].out_channels, k, bias, osz))
+            elif tgt[0] in ('pad', 'bn'):
+                out.append('chan %d' % ins[1])       # the padding / (fused) BatchNorm of the block applied again
+            else:
+                return None
         elif op == 'add':
             out.append('add %d %d' % (ins[1], ins[2]))
         elif op == 'cat':
